@@ -185,6 +185,7 @@ def showLookup : Lookup → String
   resetord id/dc/rack/hex,… …          → ring under the ordered partitioner built from the token TEXTS Cassandra reports (hex)
   okey hexkey…                        → owner of the partition key (GetHostForToken(Hash(key))); model answers with Spec.ownerO on
                                        Cassandra's ring (spec-backed; emitted only where C10_ordered_lookup_partial's hypothesis holds)
+  oagree hexkey…                      → per key 1/0: does C10_ordered_lookup_partial's hypothesis hold (harness: its own classification predicate)
   xokey hexkey…                       → the same, model = getHostForTokenO on the driver's ring (model-vs-code, KF-C10-5)
   sstrategy <class-hex> k=v…         → getStrategy for a strategy class Cassandra ships; model answers with Spec.strategy (C10_strategy)
   resetpol <sessKs> id/addr/dc/rack/t,… …  → new tokenAwareHostPolicy, universe of host objects (index = position), every schema unreadable
@@ -312,6 +313,13 @@ def step (s : Cl) (ws : List String) : Cl × String :=
     | some ks => (s, " ".intercalate (ks.map (fun k => match Spec.ownerO (cassandraRingO s.ohosts) k with
         | some e => toString e.2.id ++ "@" ++ showText (Spec.hexOf e.1)
         | none => "nil")))
+  | "oagree" :: ks =>
+    -- the hypothesis `hag` of C10_ordered_lookup_partial evaluated by the model (ties the harness's classification
+    -- okey / xokey to the theorem's hypothesis)
+    match ks.mapM parseKey with
+    | none => (s, "bad-op")
+    | some ks => (s, " ".intercalate (ks.map (fun k =>
+        if (cassandraRingO s.ohosts).all (fun e => lexLt (Spec.hexOf e.1) k == lexLt e.1 k) then "1" else "0")))
   | "xokey" :: ks =>
     -- model-vs-code: GetHostForToken(Hash(key)) on the ring of the token texts (KF-C10-5)
     match ks.mapM parseKey with
